@@ -18,8 +18,43 @@ def known():
     return _known
 
 
+def _alloc_extent_depends_on_iterator(proc):
+    """some Alloc's extent mentions an enclosing loop iterator"""
+    from exo.core.LoopIR import LoopIR
+
+    def mentions(e, syms):
+        if isinstance(e, LoopIR.Read):
+            return e.name in syms or any(mentions(i, syms) for i in e.idx)
+        if isinstance(e, LoopIR.BinOp):
+            return mentions(e.lhs, syms) or mentions(e.rhs, syms)
+        if isinstance(e, LoopIR.USub):
+            return mentions(e.arg, syms)
+        return False
+
+    def walk(stmts, iters):
+        for s in stmts:
+            if isinstance(s, LoopIR.Alloc) and s.type.is_tensor_or_window():
+                if any(mentions(h, iters) for h in s.type.shape()):
+                    return True
+            elif isinstance(s, LoopIR.For):
+                if walk(s.body, iters | {s.iter}):
+                    return True
+            elif isinstance(s, LoopIR.If):
+                if walk(s.body, iters) or walk(s.orelse, iters):
+                    return True
+        return False
+
+    return walk(proc.INTERNAL_proc().body, frozenset())
+
+
+WHEN = {"alloc-extent-depends-on-iterator": _alloc_extent_depends_on_iterator}
+
+
 def excluded_step(prop, step, proc):
-    """-> finding id if this step belongs to a class excluded by a 'known' finding"""
+    """-> finding id if this step belongs to a class excluded by a 'known' finding.
+    exclude = {"props": [...], "op": name | {"re": pattern}, "when": <named predicate on the live proc>}"""
+    import re
+
     if os.environ.get("VERIF_NO_EXCLUDE"):
         return None  # replay mode: the recorded case must reproduce the finding itself
     for f in known():
@@ -28,6 +63,12 @@ def excluded_step(prop, step, proc):
         ex = f.get("exclude")
         if not ex or prop not in ex.get("props", [f["property"]]):
             continue
-        if ex.get("op") == step[0]:
-            return f["id"]
+        op = ex.get("op")
+        hit = re.search(op["re"], step[0]) is not None if isinstance(op, dict) else op == step[0]
+        if not hit:
+            continue
+        when = ex.get("when")
+        if when and not WHEN[when](proc):
+            continue
+        return f["id"]
     return None
